@@ -51,7 +51,7 @@ def newton(f, x0, jac, niter=20, tol=1e-13, nlinesearch=10):
 
             step_scale /= 2
             
-        if residual_norm >= last_residual_norm:
+        if not (residual_norm < last_residual_norm):
             logger.info('Line search failed to reduce residual')
             break
 
